@@ -247,6 +247,9 @@ var concs = []conc{
 	{"START||destroy", nil, []string{"START_ACTIVITY"}, []string{"destroyForce"}, false},
 	{"STOP||destroyAllowRunning", []string{"START_ACTIVITY"}, []string{"STOP_ACTIVITY"}, []string{"destroyAllowRunning"}, false},
 	{"START!||RESET", nil, []string{"START_ACTIVITY!"}, []string{"RESET"}, false},
+	{"destroy||destroy", nil, []string{"destroy"}, []string{"destroy"}, false},
+	{"destroyForce||destroyForce", []string{"START_ACTIVITY"}, []string{"destroyForce"}, []string{"destroyForce"}, false},
+	{"RESET||destroy", nil, []string{"RESET"}, []string{"destroy"}, false},
 	{"taskdies||STOP", []string{"START_ACTIVITY"}, []string{"STOP_ACTIVITY"}, nil, true},
 	{"taskdies||destroy", []string{"START_ACTIVITY"}, []string{"destroyForce"}, nil, true},
 	{"taskdies-idle", []string{"START_ACTIVITY"}, nil, nil, true},
@@ -336,6 +339,21 @@ func concScenario(c conc, q, t vrt.Bounds) *vrt.Scenario {
 // (emitted while the transition lock is held); the brackets must never nest or interleave.
 func (s *sys) overlapMonitor() {
 	open := ""
+	teardowns, destroyHooks := 0, 0
+	for _, h := range coresim.CallLog {
+		if strings.HasSuffix(h, "@DESTROY") {
+			destroyHooks++
+		}
+	}
+	defer func() {
+		// DONE is terminal and a teardown is executed at most once
+		if teardowns > 1 {
+			s.fail("teardown-executed-twice", "%d teardowns of one environment were started", teardowns)
+		}
+		if destroyHooks > 1 {
+			s.fail("teardown-executed-twice:destroy-hooks", "the DESTROY hook ran %d times", destroyHooks)
+		}
+	}()
 	for _, e := range s.w.EnvEvents {
 		if e.Env != s.id {
 			continue
@@ -356,6 +374,7 @@ func (s *sys) overlapMonitor() {
 				s.fail("transitions-overlap:"+open+"/DESTROY", "teardown begins while %s is in progress", open)
 			}
 			open = "DESTROY"
+			teardowns++
 		case e.Transition == "DESTROY" && strings.HasPrefix(e.Message, "environment teardown"):
 			open = ""
 		}
@@ -388,6 +407,7 @@ func main() {
 	for _, ev := range []string{"CONFIGURE", "START_ACTIVITY", "STOP_ACTIVITY", "RESET", "GO_ERROR"} {
 		calls = append(calls, callRole("b-"+ev, "before_"+ev), callRole("a-"+ev, "after_"+ev))
 	}
+	calls = append(calls, callRole("destroy-hook", "DESTROY"))
 	coresim.GlobalSetup(coresim.WorkflowSpec{Name: "c01", Hosts: []string{"hostA"}, Calls: calls,
 		Tasks: []coresim.TaskSpec{{Name: "t1", Class: "c01t1", Mode: "direct", Critical: true, Host: "hostA"}}})
 	scs := []*vrt.Scenario{{
